@@ -58,6 +58,15 @@ class Discard(Exception):
         self.reason = reason
 
 
+class Misbehaviour(BaseException):
+    """A violation found by property-independent machinery (engine, world); the worker files it
+    under the property whose scenario was running."""
+
+    def __init__(self, monitor, detail, site=None, fault=None):
+        super().__init__(f"{monitor}: {detail}")
+        self.monitor, self.detail, self.site, self.fault = monitor, detail, site, fault
+
+
 class SimAbort(BaseException):
     """Injected failure that is not an `Exception` (abort hook, interrupt, cancellation)."""
 
